@@ -1135,6 +1135,19 @@ def r5_reservations(program, rep):
     okg = okl = okm = False
     local_read = False
     GLOBAL = None
+
+    def truth(c_):
+        """(term, polarity) with ``t != 0`` / ``t == 0`` read as the truth
+        value of t."""
+        t_, p_ = c_
+        pt = plain(t_)
+        if pt[0] == "cmp" and pt[1] in ("Eq", "NotEq") and \
+                ("const", 0) in (pt[2], pt[3]):
+            inner = pt[3] if pt[2] == ("const", 0) else pt[2]
+            inner_t = t_[3] if pt[2] == ("const", 0) else t_[2]
+            if inner[0] == "binop" and inner[1] == "BitAnd":
+                return (inner_t, p_ if pt[1] == "NotEq" else not p_)
+        return c_
     if len(glob) == 1:
         built = T.filtered(glob[0][2][names[1]])
         if not built:
@@ -1144,6 +1157,7 @@ def r5_reservations(program, rep):
         if built and len(built) == 1:
             it, elt, conds = built[0]
             rng = ("call", ("global", "range"), (("const", 18),), ())
+            conds = [truth(c_) for c_ in conds]
             okg = plain(it) == rng and elt == ("elem", it) and \
                 len(conds) == 1 and conds[0][1] is True
             if okg:
@@ -1162,7 +1176,7 @@ def r5_reservations(program, rep):
             if okl:
                 idle = [c for c in conds
                         if c == (mk_cmp("Eq", ("elem", CS), IDLE), False)]
-                rest = [c for c in conds if c not in idle]
+                rest = [truth(c) for c in conds if c not in idle]
                 okl = len(idle) == 1 and len(rest) == 1 and \
                     rest[0][1] is False
                 if okl:
